@@ -598,7 +598,26 @@ def enc_cmd(c):
         return "O %d" % c.args[0]
     if c.name == smtcmd.CHECK_SAT:
         return "K"
+    # commands outside the Lean command model (S only; this encoding serves the replay)
+    if c.name == smtcmd.DEFINE_FUN:
+        name, params, rtype, body = c.args
+        return "D %s %d %s %s | %s" % (hx(name), len(params),
+                                      " ".join("%s %s" % (hx(v.symbol_name()), wire.enc_type(v.symbol_type())) for v in params),
+                                      wire.enc_type(rtype), wire.enc_term(body))
+    if c.name == smtcmd.DEFINE_SORT:
+        return "DS %s %s" % (hx(c.args[0]), wire.enc_type(c.args[2]))
+    if c.name == smtcmd.SET_INFO:
+        return "SI %s %s" % (hx(c.args[0]), hx(c.args[1]))
+    if c.name == smtcmd.SET_OPTION:
+        return "SO %s %s" % (hx(c.args[0]), hx(c.args[1]))
+    if c.name == smtcmd.GET_VALUE:
+        return "GV %d %s" % (len(c.args), " | ".join(wire.enc_term(a) for a in c.args))
     raise ValueError(c.name)
+
+
+EXTRA_CMDS = ("D ", "DS ", "SI ", "SO ", "GV ")
+DEF_NAMES = ["my inc", "(f)", "1st", "a b c", "f(x)", "2+2", "it's", "x;y", "#h", "é1", ":kw", "inc", "Int2", "{g}", "a,b",
+             "f g", " lead", "9", "1.5", "#b01"]
 
 
 def serialize_script(script, with_file=False):
@@ -681,6 +700,32 @@ def gen_script_case(ctx, env, uni, fg, ig, uni_info, with_file):
             cmds.append((smtcmd.DECLARE_CONST, [sy]))
         else:
             cmds.append((smtcmd.DECLARE_FUN, [sy]))
+    # commands with a NAME or a string argument beyond declarations: define-fun (names that need |…| quoting), define-sort,
+    # set-info / set-option values, get-value
+    extra = rng.random() < 0.6
+    post = []
+    if extra:
+        used = {sy.symbol_name() for sy in allf.get_free_variables()}
+        cmds.insert(1, (smtcmd.SET_INFO, [":source", rng.choice(["a b", "gen 1", "x(y)", "plain"])]))
+        cmds.insert(1, (smtcmd.SET_OPTION, [":produce-models", "true"]))
+        if rng.random() < 0.5:
+            cmds.append((smtcmd.DEFINE_SORT, [rng.choice(["MyInt", "S_1", "Idx"]), [], rng.choice([INT, BVType(4), ArrayType(INT, INT)])]))
+        for _ in range(rng.randint(1, 2)):
+            nm = rng.choice([n for n in DEF_NAMES if n not in used] or ["deffun"])
+            used.add(nm)
+            pty = rng.choice([INT, BOOL, BVType(2)])
+            par = m.Symbol(uni.names.fresh("simple") if rng.random() < 0.5 else uni.names.fresh(), pty)
+            if rng.random() < 0.5 or "|" in par.symbol_name() or "\\" in par.symbol_name():
+                par = m.Symbol(uni.names.fresh("simple"), pty)
+            g = rng.choice(fs)
+            if pty.is_int_type():
+                body = m.Ite(g, m.Plus(par, m.Int(1)), par)
+            elif pty.is_bool_type():
+                body = m.And(par, g)
+            else:
+                body = m.Ite(g, m.BVNot(par), par)
+            cmds.append((smtcmd.DEFINE_FUN, [nm, [par], body.get_type(), body]))
+        post.append((smtcmd.GET_VALUE, [rng.choice(fs)] + ([rng.choice(fs)] if rng.random() < 0.4 else [])))
     # assertions with push/pop; `live` = the formulas in force at the end, with their level
     level, live = 0, []
     for i, f in enumerate(fs):
@@ -696,6 +741,7 @@ def gen_script_case(ctx, env, uni, fg, ig, uni_info, with_file):
             level -= n
             live = [(l, g) for (l, g) in live if l <= level]
     cmds.append((smtcmd.CHECK_SAT, []))
+    cmds.extend(post)
     script = build_script(env, cmds)
     try:
         wire_cmds = [enc_cmd(c) for c in script.commands]
@@ -720,10 +766,13 @@ def gen_script_case(ctx, env, uni, fg, ig, uni_info, with_file):
                          "%s serialisation raised %s" % (p, txt), {"formula": rd, "printer": p, "cmds_wire": wire_cmds})
             continue
         meta = (rd, info, texts, "", True, {"cmds_wire": wire_cmds})
-        out.append(("K:" + p, "cmp_cmds %d %s %s" % (dag, cmds_enc, hx(txt)), meta))
+        if not extra:       # the Lean command model has no define-fun / define-sort / set-info / get-value: S only
+            out.append(("K:" + p, "cmp_cmds %d %s %s" % (dag, cmds_enc, hx(txt)), meta))
         out.append(("S:" + p, "chk_cmds %d %s %d %s %s" % (kint, interps_enc, len(live_enc), " ".join(live_enc), hx(txt)),
                     meta))
     ctx.count("multi_scripts")
+    if extra:
+        ctx.count("multi_scripts_with_define_fun_etc")
     ctx.count("multi_live_%d" % len(live))
     if any(any(n.startswith(".def_") for n in all_symbol_names(f)) for f in fs[1:]):
         ctx.count("multi_with_def_like_symbol_in_later_assertion")
@@ -973,6 +1022,27 @@ def build_cmds(env, wire_cmds):
             out.append((smtcmd.POP, [tk.nat()]))
         elif c == "K":
             out.append((smtcmd.CHECK_SAT, []))
+        elif c == "D":
+            name = unhx(tk.next())
+            k = tk.nat()
+            params = []
+            for _ in range(k):
+                pn = unhx(tk.next())
+                params.append(mgr.Symbol(pn, _ty_from_wire(tm, wire.dec_type(tk))))
+            rty = _ty_from_wire(tm, wire.dec_type(tk))
+            assert tk.next() == "|"
+            out.append((smtcmd.DEFINE_FUN, [name, params, rty, build_fnode(env, " ".join(tk.t[tk.i:]))]))
+        elif c == "DS":
+            name = unhx(tk.next())
+            out.append((smtcmd.DEFINE_SORT, [name, [], _ty_from_wire(tm, wire.dec_type(tk))]))
+        elif c == "SI":
+            out.append((smtcmd.SET_INFO, [unhx(tk.next()), unhx(tk.next())]))
+        elif c == "SO":
+            out.append((smtcmd.SET_OPTION, [unhx(tk.next()), unhx(tk.next())]))
+        elif c == "GV":
+            tk.nat()
+            rest = " ".join(tk.t[tk.i:])
+            out.append((smtcmd.GET_VALUE, [build_fnode(env, part.strip()) for part in rest.split(" | ")]))
     return out
 
 
